@@ -28,6 +28,10 @@
 #include "llvm/Support/JSON.h"
 #include "llvm/Support/SourceMgr.h"
 #include "llvm/Support/raw_ostream.h"
+#include "llvm/Passes/PassBuilder.h"
+#include "llvm/Transforms/IPO/AlwaysInliner.h"
+#include "llvm/Transforms/Scalar/EarlyCSE.h"
+#include "llvm/Transforms/Scalar/SROA.h"
 #include <map>
 #include <string>
 
@@ -753,16 +757,19 @@ struct Dumper {
 
 int main(int argc, char **argv) {
   bool WithScev = false;
+  bool InlineInternal = false;
   std::vector<std::string> Pos;
   for (int i = 1; i < argc; i++) {
     std::string A = argv[i];
     if (A == "--scev")
       WithScev = true;
+    else if (A == "--inline-internal")
+      InlineInternal = true;
     else
       Pos.push_back(A);
   }
   if (Pos.size() != 2) {
-    errs() << "usage: irdump [--scev] in.ll out.json\n";
+    errs() << "usage: irdump [--scev] [--inline-internal] in.ll out.json\n";
     return 2;
   }
   LLVMContext Ctx;
@@ -771,6 +778,34 @@ int main(int argc, char **argv) {
   if (!M) {
     Err.print("irdump", errs());
     return 2;
+  }
+  if (InlineInternal) {
+    // "inlined view": every function with internal linkage (file-local helpers) is inlined into its callers, so
+    // that rules about a public function see the whole of what it does however it is split into helpers
+    for (Function &F : *M) {
+      if (F.isDeclaration() || !F.hasLocalLinkage())
+        continue;
+      F.removeFnAttr(Attribute::NoInline);
+      F.removeFnAttr(Attribute::OptimizeNone);
+      F.addFnAttr(Attribute::AlwaysInline);
+    }
+    PassBuilder PB;
+    LoopAnalysisManager LAM;
+    FunctionAnalysisManager FAM;
+    CGSCCAnalysisManager CGAM;
+    ModuleAnalysisManager MAM;
+    PB.registerModuleAnalyses(MAM);
+    PB.registerCGSCCAnalyses(CGAM);
+    PB.registerFunctionAnalyses(FAM);
+    PB.registerLoopAnalyses(LAM);
+    PB.crossRegisterProxies(LAM, FAM, CGAM, MAM);
+    ModulePassManager MPM;
+    MPM.addPass(AlwaysInlinerPass(/*InsertLifetime=*/false));
+    FunctionPassManager FPM;
+    FPM.addPass(SROAPass());
+    FPM.addPass(EarlyCSEPass());
+    MPM.addPass(createModuleToFunctionPassAdaptor(std::move(FPM)));
+    MPM.run(*M, MAM);
   }
   std::error_code EC;
   raw_fd_ostream Out(Pos[1], EC);
